@@ -21,6 +21,7 @@ type PropFunc struct {
 	Kinds []string `json:"kinds,omitempty"` // restrict to these obligation kinds
 	Tags  []string `json:"tags,omitempty"`  // restrict post/inv obligations to these clause tags ("" = untagged)
 	Role  string   `json:"role,omitempty"`  // "top" = public function named by the property
+	Skip  []string `json:"skip,omitempty"`  // obligations (base names) left undecided on the unchanged tree: not part of the claim, listed in the evidence
 }
 
 type PropSpec struct {
@@ -149,6 +150,7 @@ func cmdCheck(args []string) int {
 		opts.Budget = 60
 	}
 	var results []*FuncResult
+	var undecided []string
 	var selected []*Obligation
 	var orphans []string
 	var engineErrors []string
@@ -217,6 +219,10 @@ func cmdCheck(args []string) int {
 				continue
 			}
 			if len(pf.Tags) > 0 && (o.Kind == "post" || o.Kind == "inv") && !contains(pf.Tags, tagName(o.Tag)) {
+				continue
+			}
+			if contains(pf.Skip, baseName(o.Name)) {
+				undecided = append(undecided, baseName(o.Name))
 				continue
 			}
 			selected = append(selected, o)
@@ -429,6 +435,7 @@ func cmdCheck(args []string) int {
 		"samples":                  samples,
 		"vacuity":                  map[string]interface{}{"smoke_checked": smokeChecked, "smoke_false_derivable": smokeUnsat},
 		"orphan_contracts":         orphans,
+		"undecided_excluded":       undecided,
 		"inlined_uncontracted":     inlined,
 		"known_findings_seen":      knownList,
 		"engine_errors":            engineErrors,
